@@ -236,6 +236,18 @@ pub fn classify_behaviour(_property: &str, ctx: &FailCtx) -> Option<String> {
             return Some("sqrt-as-pow-differs-on-negative-zero-and-infinity".to_owned());
         }
     }
+    if rule == "remove_interpolated_string" {
+        // bug model: the lowered form converts each value (`tostring`) before the next one is evaluated; the
+        // pre-state run with that order must behave exactly like the output
+        let env = ctx.env_out.clone();
+        let predicted = luaref::observe(pre, Mode::Luau, ctx.fuel, &|it| {
+            env(it);
+            it.interp_convert_eagerly = true;
+        });
+        if predicted.same_behaviour(ctx.actual) && !predicted.same_behaviour(ctx.expected) {
+            return Some("interpolated-values-converted-before-later-values-are-evaluated".to_owned());
+        }
+    }
     if rule == "remove_continue" {
         if let Ok(parsed) = parser::parse(pre.as_bytes(), Mode::Luau) {
             let mut b = parsed.block;
